@@ -1046,23 +1046,59 @@ def hazards(n, ptypes, out=None):
     return out
 
 
-def func_hazards(stmts, ptypes):
-    out = set()
-    def walk(sts):
-        for st in sts:
-            if st[0] == "seq":
-                walk(st[1])
-            elif st[0] == "if":
-                hazards(st[1], ptypes, out)
-                walk(st[2])
-                if st[3]:
-                    walk(st[3])
-            elif st[0] == "raw" and re.match(r"^[a-d] (=|-=) |^[a-d]\+\+", st[1]):
-                m = re.match(r"^([a-d])", st[1])
-                if ptypes[m.group(1)] != "s3" and ptypes[m.group(1)] != "s4":
-                    out.add("assignment-to-narrow-or-unsigned")
-    walk(stmts)
+def iter_stmts(stmts):
+    """every statement, depth first.  Kinds: ("raw", text) ("seq", [..]) ("if", cond, then, else|None)
+    ("while", cond, body) ("for", init_text, cond, step_text, body)"""
+    for st in stmts:
+        yield st
+        if st[0] == "seq":
+            yield from iter_stmts(st[1])
+        elif st[0] == "if":
+            yield from iter_stmts(st[2])
+            if st[3]:
+                yield from iter_stmts(st[3])
+        elif st[0] == "while":
+            yield from iter_stmts(st[2])
+        elif st[0] == "for":
+            yield from iter_stmts(st[4])
+
+
+def stmt_cond(st):
+    return st[1] if st[0] in ("if", "while") else st[2] if st[0] == "for" else None
+
+
+def stmt_texts(st):
+    """the plain C texts of a statement that may write variables"""
+    if st[0] == "raw":
+        return [st[1]]
+    if st[0] == "for":
+        return [st[1], st[3]]
+    return []
+
+
+ASSIGN_RE = re.compile(r"^(?:(?:int|long)\s+)?([A-Za-z_]\w*)\s*(=|[-+*/%]=|<<=|>>=|\+\+|--)(.*)$")
+
+
+def assignments(stmts):
+    """(variable, operator, right-hand-side text) of every assignment statement / for-init / for-step"""
+    out = []
+    for st in iter_stmts(stmts):
+        for t in stmt_texts(st):
+            m = ASSIGN_RE.match(t.strip().rstrip(";"))
+            if m and m.group(1) not in ("r", "return"):
+                out.append((m.group(1), m.group(2), m.group(3)))
     return out
+
+
+def func_ptypes(f):
+    """types of the parameters and of the locals declared by `int v = …` / `long v = …` in raw statements and for-inits"""
+    pt = dict(f["params"])
+    for st in iter_stmts(f["stmts"]):
+        for t in stmt_texts(st):
+            m = re.match(r"^\s*(int|long)\s+([A-Za-z_]\w*)\s*=", t)
+            if m:
+                pt[m.group(2)] = "s3" if m.group(1) == "int" else "s4"
+    return pt
 
 
 class ProgGen:
@@ -1076,15 +1112,62 @@ class ProgGen:
     def cond(self, tree):
         return PNode(tree, self.ids)
 
-    def assign(self):
+    COMPOUND = ["+=", "-=", "*=", "/=", "%=", "<<=", ">>=", "++", "--"]
+
+    @staticmethod
+    def apply_compound(op, k, c):
+        """image of the constant k under `v op= c` (C semantics for / and %)"""
+        if op == "+=":
+            return k + c
+        if op == "-=":
+            return k - c
+        if op == "*=":
+            return k * c
+        if op == "/=":
+            return int(k / c) if c else k
+        if op == "%=":
+            return (abs(k) % c) * (1 if k >= 0 else -1) if c else k
+        if op == "<<=":
+            return k << c if k >= 0 else k
+        if op == ">>=":
+            return k >> c
+        return k + 1 if op == "++" else k - 1
+
+    @staticmethod
+    def compound_text(v, op, c):
+        return "%s%s;" % (v, op) if op in ("++", "--") else "%s %s %d;" % (v, op, c)
+
+    def assign(self, v=None):
+        r = self.rng
+        v = v or r.choice("abcd")
+        k = r.random()
+        if k < 0.3:
+            return ("raw", "%s = %s;" % (v, pr(self.g.term(1))))
+        op = r.choice(self.COMPOUND)
+        c = r.randrange(1, 4)
+        if op == "*=" and r.random() < 0.15:
+            c = r.choice([0, -1, -2])
+        return ("raw", self.compound_text(v, op, c))
+
+    def flow(self):
+        """a condition on one variable, a compound assignment by a constant, a condition on the image of the constant:
+        the shapes in which value flow carries (im)possible values and bounds through an assignment"""
         r = self.rng
         v = r.choice("abcd")
-        k = r.random()
-        if k < 0.4:
-            return ("raw", "%s = %s;" % (v, pr(self.g.term(1))))
-        if k < 0.7:
-            return ("raw", "%s++;" % v)
-        return ("raw", "%s -= %d;" % (v, r.randrange(1, 4)))
+        k1 = r.randrange(-6, 11)
+        cmp1, cmp2 = r.choice(CMPS), r.choice(CMPS)
+        op = r.choice(self.COMPOUND)
+        c = r.randrange(1, 4)
+        k2 = self.apply_compound(op, k1, c) + r.choice([-1, 0, 0, 0, 1])
+        c1 = ("bin", cmp1, ("var", v), ("lit", str(k1)))
+        c2 = ("bin", cmp2, ("var", v), ("lit", str(k2)))
+        if r.random() < 0.2:
+            c2 = ("bin", FLIP_CMP[cmp2], ("lit", str(k2)), ("var", v))
+        asg = ("raw", self.compound_text(v, op, c))
+        inner = ("if", self.cond(c2), [self.mark()], None)
+        if r.random() < 0.6:
+            return ("if", self.cond(c1), [asg, inner], None)
+        return ("seq", [("if", self.cond(c1), [("raw", "return %d;" % r.randrange(1, 50))], None), asg, inner])
 
     def mark(self):
         return ("raw", "r += %d;" % self.rng.randrange(1, 100))
@@ -1100,6 +1183,8 @@ class ProgGen:
         r = self.rng
         g = self.g
         k = r.random()
+        if r.random() < 0.3:
+            return self.flow()
         c1 = g.cond()
         c2 = g.mutate(c1)
         if r.random() < 0.3:
@@ -1125,13 +1210,25 @@ class ProgGen:
 
 
 def emit_stmts(stmts, ind, lines, tlines):
-    """appends the plain lines (cppcheck) and the traced lines (gcc); conditions are printed on lines of their own"""
+    """appends the plain lines (cppcheck) and the traced lines (gcc); every condition is printed on the line of its keyword"""
     pad = "  " * ind
     for st in stmts:
         if st[0] == "raw":
             lines.append(pad + st[1]); tlines.append(pad + st[1])
         elif st[0] == "seq":
             emit_stmts(st[1], ind, lines, tlines)
+        elif st[0] == "while":
+            head = pad + "while ("
+            lines.append(head + st[1].plain(len(lines) + 1, len(head) + 1) + ") {")
+            tlines.append(head + st[1].traced() + ") {")
+            emit_stmts(st[2], ind + 1, lines, tlines)
+            lines.append(pad + "}"); tlines.append(pad + "}")
+        elif st[0] == "for":
+            head = pad + "for (" + st[1] + "; "
+            lines.append(head + st[2].plain(len(lines) + 1, len(head) + 1) + "; " + st[3] + ") {")
+            tlines.append(head + st[2].traced() + "; " + st[3] + ") {")
+            emit_stmts(st[4], ind + 1, lines, tlines)
+            lines.append(pad + "}"); tlines.append(pad + "}")
         else:
             _, c, then, els = st
             head = pad + "if ("
@@ -1148,6 +1245,33 @@ def emit_stmts(stmts, ind, lines, tlines):
                 tlines.append(head + e[1].traced() + ") {")
                 emit_stmts(e[2], ind + 1, lines, tlines)
                 lines.append(pad + "}"); tlines.append(pad + "}")
+
+
+def flow_family():
+    """deterministic functions run on every CLI batch of the first kind: for every compound assignment by a constant, a point
+    / lower-bound / upper-bound fact established before it and tested on the image of the constant after it, nested and
+    after an early return; inputs -9..9.  (On an analyser that carries facts through a non-invertible assignment these are
+    the programs that show it.)"""
+    V = lambda n: ["var", n]
+    L = lambda k: ["lit", str(k)]
+    B = lambda op, l, r: ["bin", op, l, r]
+    mark = ["raw", "r += 1;"]
+    params = [["a", "s3"], ["b", "s3"], ["c", "s3"], ["d", "s3"]]
+    inputs = [[x, 0, 0, 0] for x in range(-9, 10)]
+    items = []
+    for op in ProgGen.COMPOUND:
+        c = 2
+        asg = ["raw", ProgGen.compound_text("a", op, c)]
+        T = lambda k: ProgGen.apply_compound(op, k, c)
+        shapes = [("point", B("ne", V("a"), L(6)), B("ne", V("a"), L(T(6))), B("eq", V("a"), L(6))),
+                  ("lower", B("gt", V("a"), L(0)), B("gt", V("a"), L(T(0))), B("le", V("a"), L(0))),
+                  ("upper", B("lt", V("a"), L(5)), B("ge", V("a"), L(T(5))), B("ge", V("a"), L(5)))]
+        for name, c1, c2, notc1 in shapes:
+            items.append(dict(name="flow %s %s nested" % (op, name), params=params, inputs=inputs,
+                              stmts=[["if", c1, [asg, ["if", c2, [mark], None]], None]]))
+            items.append(dict(name="flow %s %s after return" % (op, name), params=params, inputs=inputs,
+                              stmts=[["seq", [["if", notc1, [["raw", "return 9;"]], None], asg, ["if", c2, [mark], None]]]]))
+    return items
 
 
 CLI_IDS = {"knownConditionTrueFalse", "oppositeInnerCondition", "identicalInnerCondition", "overlappingInnerCondition",
@@ -1346,19 +1470,13 @@ def consts_in_stmts(stmts):
                 out.append(tv[1])
         for k in n.kids:
             walk_node(k)
-    def walk(sts):
-        for st in sts:
-            if st[0] == "raw":
-                for m in re.finditer(r"-?\d+", st[1]):
-                    out.append(int(m.group(0)))
-            elif st[0] == "seq":
-                walk(st[1])
-            else:
-                walk_node(st[1])
-                walk(st[2])
-                if st[3]:
-                    walk(st[3])
-    walk(stmts)
+    for st in iter_stmts(stmts):
+        for t in stmt_texts(st):
+            for m in re.finditer(r"-?\d+", t):
+                out.append(int(m.group(0)))
+        c = stmt_cond(st)
+        if c is not None:
+            walk_node(c)
     return out
 
 
@@ -1377,13 +1495,18 @@ def spec_of_stmts(stmts):
             out.append(["raw", st[1]])
         elif st[0] == "seq":
             out.append(["seq", spec_of_stmts(st[1])])
+        elif st[0] == "while":
+            out.append(["while", tree_of(st[1]), spec_of_stmts(st[2])])
+        elif st[0] == "for":
+            out.append(["for", st[1], tree_of(st[2]), st[3], spec_of_stmts(st[4])])
         else:
             out.append(["if", tree_of(st[1]), spec_of_stmts(st[2]), spec_of_stmts(st[3]) if st[3] else None])
     return out
 
 
 def build_corpus_stmts(spec, pg):
-    """corpus statement language: ["raw", text] | ["if", <tree>, [stmts], null | [stmts]] | ["seq", [stmts]]; trees as nested lists"""
+    """corpus statement language: ["raw", text] | ["if", <tree>, [stmts], null | [stmts]] | ["seq", [stmts]] |
+    ["while", <tree>, [stmts]] | ["for", init text, <tree>, step text, [stmts]]; trees as nested lists"""
     def tree(t):
         return tuple(tree(x) if isinstance(x, list) else x for x in t)
     out = []
@@ -1392,6 +1515,10 @@ def build_corpus_stmts(spec, pg):
             out.append(("raw", st[1]))
         elif st[0] == "seq":
             out.append(("seq", build_corpus_stmts(st[1], pg)))
+        elif st[0] == "while":
+            out.append(("while", pg.cond(tree(st[1])), build_corpus_stmts(st[2], pg)))
+        elif st[0] == "for":
+            out.append(("for", st[1], pg.cond(tree(st[2])), st[3], build_corpus_stmts(st[4], pg)))
         else:
             out.append(("if", pg.cond(tree(st[1])), build_corpus_stmts(st[2], pg), build_corpus_stmts(st[3], pg) if st[3] else None))
     return out
@@ -1412,71 +1539,101 @@ def node_vars(n, out=None):
     return out
 
 
+def root_of(node):
+    while node.parent is not None:
+        node = node.parent
+    return node
+
+
+def func_conds(f):
+    return [stmt_cond(st) for st in iter_stmts(f["stmts"]) if stmt_cond(st) is not None]
+
+
 def relevant_hazards(node, f):
     """hazards of the conditions the flagged node's verdict can depend on: its own condition, every condition of the function
     that shares a variable with it, and the assignments to those variables (with the variables on their right-hand sides)"""
-    ptypes = dict(f["params"])
-    root = node
-    while root.parent is not None:
-        root = root.parent
-    conds, assigns = [], []
-    def walk(sts):
-        for st in sts:
-            if st[0] == "seq":
-                walk(st[1])
-            elif st[0] == "if":
-                conds.append(st[1])
-                walk(st[2])
-                if st[3]:
-                    walk(st[3])
-            elif st[0] == "raw":
-                m = re.match(r"^([a-d])\s*(=|-=|\+\+)(.*)$", st[1])
-                if m:
-                    assigns.append((m.group(1), set(re.findall(r"\b[a-d]\b", m.group(3)))))
-    walk(f["stmts"])
+    ptypes = func_ptypes(f)
+    root = root_of(node)
+    assigns = [(v, op, set(re.findall(r"\b[A-Za-z_]\w*\b", rhs))) for v, op, rhs in assignments(f["stmts"])]
     V = node_vars(root)
-    for lhs, rhs in assigns:
+    for lhs, op, rhs in assigns:
         if lhs in V:
-            V = V | rhs
+            V = V | (rhs & set(ptypes))
     out = set()
-    for c in conds:
+    for c in func_conds(f):
         if c is root or (node_vars(c) & V):
             hazards(c, ptypes, out)
-    for lhs, rhs in assigns:
-        if lhs in V and ptypes[lhs] not in ("s3", "s4"):
+    for lhs, op, rhs in assigns:
+        if lhs in V and ptypes.get(lhs) not in ("s3", "s4"):
             out.add("assignment-to-narrow-or-unsigned")
     return out
 
 
 def stale_self_reference(node, f):
-    """the class of F03j: a variable v of the flagged condition is changed by `v -= k` / `v++` somewhere in the function, and
-    a condition of the function holds an `==` / `!=` whose two operands both mention v (value flow keeps the symbolic value
-    `v == E(v)` across the compound assignment although E changes with v)"""
-    root = node
-    while root.parent is not None:
-        root = root.parent
-    V = node_vars(root)
-    changed = set()
-    conds = []
-    def walk(sts):
-        for st in sts:
-            if st[0] == "seq":
-                walk(st[1])
-            elif st[0] == "if":
-                conds.append(st[1])
-                walk(st[2])
-                if st[3]:
-                    walk(st[3])
-            elif st[0] == "raw":
-                m = re.match(r"^([a-d])\s*(-=|\+\+)", st[1])
-                if m:
-                    changed.add(m.group(1))
-    walk(f["stmts"])
+    """the class of F03j: a variable v of the flagged condition is changed by `v -= k` / `v++` (any compound assignment or
+    increment) somewhere in the function, and a condition of the function holds an `==` / `!=` whose two operands both mention
+    v (value flow keeps the symbolic value `v == E(v)` across the compound assignment although E changes with v)"""
+    V = node_vars(root_of(node))
+    changed = {v for v, op, rhs in assignments(f["stmts"]) if op != "="}
     def selfref(n, v):
         if n.kind == "bin" and n.op in ("eq", "ne") and v in node_vars(n.kids[0]) and v in node_vars(n.kids[1]):
             return True
         return any(selfref(k, v) for k in n.kids)
-    return any(v in changed and any(selfref(c, v) for c in conds) for v in V)
+    return any(v in changed and any(selfref(c, v) for c in func_conds(f)) for v in V)
+
+
+def enclosing_loops(root, f):
+    """the while / for statements whose body holds the statement with condition `root`"""
+    out = []
+    for st in iter_stmts(f["stmts"]):
+        if st[0] in ("while", "for"):
+            body = st[2] if st[0] == "while" else st[4]
+            if any(stmt_cond(x) is root for x in iter_stmts(body)):
+                out.append(st)
+    return out
+
+
+def has_lor(n):
+    return (n.kind == "bin" and n.op == "lor") or any(has_lor(k) for k in n.kids)
+
+
+def classify_loops_and_products(cl, f):
+    """the classes of the findings F03k-F03o (loops, aliases, products); each is specific to its shape"""
+    root = root_of(cl["node"])
+    V = node_vars(root)
+    asg = assignments(f["stmts"])
+    loops = enclosing_loops(root, f)
+    if cl["id"] == "identicalConditionAfterEarlyExit":
+        # F03k: the "early exit" is a `break` / `continue` at the head of a loop body with the same condition
+        for st in iter_stmts(f["stmts"]):
+            if st[0] in ("while", "for"):
+                body = st[2] if st[0] == "while" else st[4]
+                if body and body[0][0] == "raw" and re.match(r"^(break|continue);", body[0][1]) and (node_vars(stmt_cond(st)) & V):
+                    return "F03k:identicalConditionAfterEarlyExit-loop-break-is-no-exit"
+    if cl["id"] in FLOW_IDS:
+        for st in loops:
+            if st[0] == "for" and has_lor(st[2]) and (node_vars(st[2]) & V):
+                return "F03l:for-loop-condition-with-oror-bounds-the-loop-variable"
+        for st in loops:
+            if st[0] == "for":
+                m = ASSIGN_RE.match(st[1].strip())
+                if m and m.group(1) in V and m.group(2) == "=":
+                    src_vars = set(re.findall(r"\b[A-Za-z_]\w*\b", m.group(3)))
+                    for c in func_conds(f):
+                        def eq_on(n):
+                            return (n.kind == "bin" and n.op == "eq" and (node_vars(n) & src_vars)) or any(eq_on(k) for k in n.kids)
+                        if c is not root and eq_on(c):
+                            return "F03m:possible-value-of-if-eq-becomes-loop-start-value"
+        for v, op, rhs in asg:
+            if v in V and op == "*=" and re.match(r"^\s*(0|-\d+)\s*$", rhs):
+                return "F03o:impossible-value-through-multiplication-by-zero-or-negative"
+    if cl["id"] == "oppositeInnerCondition" and loops:
+        # F03n: the outer condition is on a copy (`int y = x;`), the inner one on x inside a loop that changes x
+        copies = {(v, rhs.strip()) for v, op, rhs in asg if op == "=" and re.match(r"^\s*[A-Za-z_]\w*\s*$", rhs)}
+        changed = {v for v, op, rhs in asg if op != "="}
+        if any(src in V and src in changed for v, src in copies):
+            return "F03n:oppositeInnerCondition-through-copy-and-loop-modification"
+    return None
 
 
 def classify_cli(cl, f, lines):
@@ -1484,6 +1641,9 @@ def classify_cli(cl, f, lines):
     The excuse is granted per flagged node (`relevant_hazards`), not per function.  The former classes F03a
     (isSameExpression), F03c (Known value on the left of a bit test) and F03i (`k - x`, `x * k` in a condition) are fixed
     in the code and are no classes any more."""
+    k = classify_loops_and_products(cl, f)
+    if k:
+        return k
     if cl["id"] in FLOW_IDS and stale_self_reference(cl["node"], f):
         return "F03j:symbolic-value-self-reference-stale-after-compound-assignment"
     hz = relevant_hazards(cl["node"], f)
@@ -1536,7 +1696,7 @@ def run(ctx, res):
     run_inprocess(ctx, res, 500 if quick else 8000, 24 if quick else 40, corpus.get("inprocess", []))
     t2 = time.time()
     # batches keep the instrumented translation units small (gcc's time and memory grow faster than linearly)
-    run_cli(ctx, res, 80 if quick else 250, 24 if quick else 32, corpus.get("cli", []), "c")
+    run_cli(ctx, res, 80 if quick else 250, 24 if quick else 32, corpus.get("cli", []) + flow_family(), "c")
     if not quick:
         for _ in range(4):
             run_cli(ctx, res, 250, 32, [], "c")
